@@ -233,6 +233,11 @@ class RollingApply(RollingReduction):
 class RollingCov(RollingReduction):
     how = "cov"
 
+    def _simplify_up(self, parent, dependents):
+        # Every column of the result is computed from all columns of the
+        # input (they label its rows): a selection cannot be pushed below
+        return
+
 
 class Rolling:
     """Aggregate using one or more operations
